@@ -243,6 +243,7 @@ From Soy Require Import Model.Utf8 Model.Token Model.Lexer Model.RawText Model.E
   Proofs.ErrTokProofs Proofs.ParseErrBound Proofs.LexErrPos Proofs.LexEofPos Proofs.ParseEndToEnd
   Spec.ErrText Proofs.LexTokens Proofs.LexFinalPos Proofs.ErrPosWindow Proofs.ErrPosWindowCmd Proofs.ErrPosFinal
   Proofs.ErrPosReach Proofs.ErrPosSites Proofs.ErrPosText Proofs.LexPrefixStates Proofs.LexPrefixMain Proofs.ErrPosPrefix.
+Open Scope N_scope.
 
 (* every error of the model of parse.SoyFile, on the items of the scanner model, for every input *)
 Theorem C19_parse_error_position :
@@ -391,10 +392,10 @@ Theorem C19_fault_line_partial :
      line_at s (t_pos e) = 1 + count_nl (take (Z.to_nat (l_pos l)) s ++ ws)).
 Proof.
   intros ul ud Hl Hd. split; [|split; [|split]].
-  - intros. apply (stray_brace_after_valid_prefix ul ud Hl Hd pre r1 r2); assumption.
-  - intros. apply (illegal_char_after_valid_prefix ul ud Hl Hd pre r1 r2); assumption.
-  - intros. apply stray_brace_reached; assumption.
-  - intros. apply illegal_char_reached; assumption.
+  - intros. eapply (stray_brace_after_valid_prefix ul ud Hl Hd pre r1 r2); eassumption.
+  - intros. eapply (illegal_char_after_valid_prefix ul ud Hl Hd pre r1 r2); eassumption.
+  - intros. eapply stray_brace_reached; eassumption.
+  - intros. eapply illegal_char_reached; eassumption.
 Qed.
 Print Assumptions C19_fault_line_partial.
 
